@@ -67,4 +67,18 @@ PROPS = {
         "assumptions": ["serde_json compact printer escaping rules as modelled in Model/Json.v", "http lower-cases header names"],
         "trusted_base": COMMON_TB + ["modelled, not verified: request_builder.rs, protocol/request.rs serde derives, version Display"],
     },
+    "C14": {
+        "run": ["EvalSM"],
+        "n": {"quick": 400, "thorough": 6000},
+        "level_text": "The state machine is a total Gallina function from scripts to traces (no panic outcome exists in the model after the repairs); "
+                      "storage faults cannot change requests or events (relational theorem over the model).  Tied to the code by running the real state machine "
+                      "on scripted environments (extreme stored values, wrong types, clock jumps, storage faults, bad URLs) under catch_unwind with a TRACE-level "
+                      "tracing subscriber and a poll watchdog, and comparing full traces.",
+        "level_note": "see DESIGN.md section 4 C14: panic-freedom of unmodelled code (logging, third-party crates) is exercised, not proved.",
+        "diff_meaning": "The implementation panicked, hung, or produced a trace that differs from the model's on this scripted environment.",
+        "rule": "random scripted environments biased to extreme stored values (0, +-1, u32::MAX+-1, i64 extremes, wrong types), clock jumps, storage faults and invalid URLs; "
+                "distinct = distinct implementation trace; non-trivial = at least one HTTP request or completed check",
+        "assumptions": ["harness trait implementations follow the trait contracts", "Storage trait contract: writes cached until commit"],
+        "trusted_base": COMMON_TB + ["modelled, not verified: state_machine.rs, update_check.rs, builder.rs, app_set.rs, common.rs"],
+    },
 }
